@@ -37,7 +37,8 @@ TInit(St0) == \E hh \in 1..Len(Trace) : trH = hh /\ trI = 1 /\ trS = St0 /\ trP 
 Consume(Upd(_, _)) ==
   /\ trI <= Len(Trace[trH].ev)
   /\ trP' = trS
-  /\ trS' = Upd(trS, Trace[trH].ev[trI])
+  \* a call that panicked carries no result fields: the abstract state is kept, the verdict is "panic"
+  /\ trS' = IF "panic" \in DOMAIN Trace[trH].ev[trI] THEN trS ELSE Upd(trS, Trace[trH].ev[trI])
   /\ trI' = trI + 1
   /\ UNCHANGED trH
 
